@@ -51,7 +51,7 @@ inductive Res (α : Type) where
   | ok (a : α)
   | fail
   | panic
-  deriving Repr
+  deriving Repr, DecidableEq
 
 namespace Res
 def bind {α β : Type} (r : Res α) (f : α → Res β) : Res β :=
